@@ -283,6 +283,12 @@ def run_cli(case, proj, st, res):
         if dict(cli.parse_status(r3.out)).get(victim["name"]) != "shouldrun":
             res.violation("status-mismatch", "hashing on: %s has an edited script but is shown as %s" % (victim["name"], dict(cli.parse_status(r3.out)).get(victim["name"])))
             return
+        # a preview in between must not make the edited script count as submitted either
+        cli.gwf(proj.root, ["run", "--dry-run", victim["name"]], env)
+        r3b = cli.gwf(proj.root, ["status"], env)
+        if dict(cli.parse_status(r3b.out)).get(victim["name"]) != "shouldrun":
+            res.violation("completed-after-dry-run", "hashing on: after `gwf run --dry-run` the edited, never submitted script of %s is shown as %s" % (victim["name"], dict(cli.parse_status(r3b.out)).get(victim["name"])))
+            return
         sim.set_faults([{"cmd": "sbatch", "nth": 1, "kind": rr.choice(["exit1", "stderr_error", "garbage"])}])
         cli.gwf(proj.root, ["run", victim["name"]], env)
         sim.set_faults([])
